@@ -1,3 +1,4 @@
 pub mod c07;
 pub mod c13;
 pub mod c14;
+pub mod c03;
